@@ -600,10 +600,58 @@ fn apply(
 }
 
 fn check_iter(real: &rcgen::DistinguishedName, model: &[(DnTypeR, DnValueR)]) -> Result<(), Fail> {
-    let got: Vec<(DnTypeR, DnValueR)> =
-        real.iter().map(|(t, v)| (DnTypeR::from_rcgen(t), DnValueR::from_rcgen(v))).collect();
+    let conv = |(t, v): (&rcgen::DnType, &rcgen::DnValue)| (DnTypeR::from_rcgen(t), DnValueR::from_rcgen(v));
+    let got: Vec<(DnTypeR, DnValueR)> = real.iter().map(conv).collect();
     if got != model {
         return fail("dn-enumeration", format!("iter() yields {:?}, model holds {:?}", got, model));
+    }
+    // enumeration through the rest of the Iterator protocol (adaptors call nth / size_hint /
+    // fold-like methods an implementation may override); every walk is bounded
+    let n = model.len();
+    if n <= 12 {
+        let bound = n + 2;
+        if real.iter().count() != n {
+            return fail("dn-enumeration", format!("iter().count() is {}, {} attributes present", real.iter().count(), n));
+        }
+        if real.iter().last().map(conv) != model.last().cloned() {
+            return fail("dn-enumeration", "iter().last() is not the last attribute".into());
+        }
+        for k in 0..=n {
+            if real.iter().nth(k).map(conv) != model.get(k).cloned() {
+                return fail("dn-enumeration", format!("iter().nth({k}) disagrees with the enumeration"));
+            }
+            let skipped: Vec<_> = real.iter().skip(k).take(bound).map(conv).collect();
+            if skipped != model[k.min(n)..] {
+                return fail("dn-enumeration", format!("iter().skip({k}) yields {:?}", skipped));
+            }
+            // nth on a partly consumed iterator
+            let mut it = real.iter();
+            let mut via: Vec<(DnTypeR, DnValueR)> = Vec::new();
+            if let Some(x) = it.next() {
+                via.push(conv(x));
+                while via.len() < bound {
+                    match it.nth(k) {
+                        Some(x) => via.push(conv(x)),
+                        None => break,
+                    }
+                }
+                let want: Vec<_> = model.iter().take(1).chain(model.iter().skip(1).skip(k).step_by(k + 1)).cloned().collect();
+                if via != want {
+                    return fail("dn-enumeration", format!("next() then repeated nth({k}) yields {:?}, expected {:?}", via, want));
+                }
+            }
+        }
+        for step in 1..=3usize {
+            let stepped: Vec<_> = real.iter().step_by(step).take(bound).map(conv).collect();
+            let want: Vec<_> = model.iter().step_by(step).cloned().collect();
+            if stepped != want {
+                return fail("dn-enumeration", format!("iter().step_by({step}) yields {:?}, expected {:?}", stepped, want));
+            }
+        }
+        let (lo, hi) = real.iter().size_hint();
+        if lo > n || hi.map_or(false, |h| h < n) {
+            return fail("dn-enumeration", format!("iter().size_hint() = ({lo}, {:?}) excludes the actual length {n}", hi));
+        }
     }
     Ok(())
 }
